@@ -35,6 +35,14 @@ Proof.
   - destruct (IH Hin) as [y [Hy HRy]]. exists y. split; [right; exact Hy | exact HRy].
 Qed.
 
+Lemma map_opt_none {A B} (f : A -> option B) l : map_opt f l = None -> exists x, In x l /\ f x = None.
+Proof.
+  induction l as [|x l IH]; simpl; [discriminate|].
+  destruct (f x) eqn:Hfx; [|intros _; exists x; split; [left; reflexivity | exact Hfx]].
+  destruct (map_opt f l) eqn:Hml; [discriminate|]. intros _.
+  destruct (IH eq_refl) as [y [Hy Hfy]]. exists y. split; [right; exact Hy | exact Hfy].
+Qed.
+
 Definition file_at (fs : fsnap) (p : path) (nd : node) : Prop :=
   fs_get fs p = Some nd /\ n_kind nd = KFile.
 
@@ -520,6 +528,157 @@ Proof.
   apply first_match_some in Hl. destruct Hl as [incs [Hin Hrm]].
   apply in_rev in Hin.
   destruct (run_recs_inv cfg ops k incs Hin) as [op [Hop [Hk [Hrec Hcompl]]]].
+  exists op. split; [exact Hop|]. split; [exact Hk|].
+  intros p Hmust. destruct (Hcompl p Hmust) as [ie [Hie Hp]]. subst p.
+  unfold result_matches in Hrm. rewrite forallb_forall in Hrm.
+  rewrite Forall_forall in Hrec.
+  apply (include_sound cfg _ _ _ _ ie (Hrec ie Hie)).
+  - intros Hf Hu. apply (Htrust Hf Hu op Hop).
+  - apply Hrm. exact Hie.
+Qed.
+
+(* add_result stores a result with ALL the files it was given, or not at all *)
+Lemma rs_find_put k v rs : rs_find D k (rs_put D k v rs) = Some v.
+Proof.
+  induction rs as [|[k0 v0] rs IH]; simpl.
+  - rewrite bytes_eqb_refl. reflexivity.
+  - destruct (bytes_eqb k0 k) eqn:Hk; simpl; [rewrite bytes_eqb_refl; reflexivity|].
+    destruct (bytes_ltb k k0); simpl; [rewrite bytes_eqb_refl; reflexivity|]. rewrite Hk. exact IH.
+Qed.
+
+Lemma mk_include_fields fs start f ie :
+  mk_include D fs start f = Some ie -> ie_path D ie = snd f /\ ie_digest D ie = fst f /\ fs_get fs (snd f) <> None.
+Proof.
+  unfold mk_include. destruct (fs_get fs (snd f)); [|discriminate]. intros He. inversion He; subst.
+  simpl. repeat split; try reflexivity. discriminate.
+Qed.
+
+Theorem add_result_all_or_nothing (e : entry D) fs start k (files : list (idigest D * path)) :
+  (exists incs,
+      rs_find D k (results D (add_result D e fs start k files)) = Some incs /\
+      map (ie_path D) incs = map snd files /\ map (ie_digest D) incs = map fst files /\
+      (forall f, In f files -> fs_get fs (snd f) <> None))
+  \/
+  ((exists f, In f files /\ fs_get fs (snd f) = None) /\
+   forall k' v, In (k', v) (results D (add_result D e fs start k files)) -> In (k', v) (results D e)).
+Proof.
+  unfold add_result.
+  set (e1 := if N.ltb max_pp_cache_entries (len (results D e))
+             then {| number_of_entries := 0; results := [] |} else e).
+  assert (He1 : forall k' v, In (k', v) (results D e1) -> In (k', v) (results D e)).
+  { unfold e1. destruct (N.ltb max_pp_cache_entries (len (results D e))); [intros k' v []|tauto]. }
+  destruct (map_opt (mk_include D fs start) files) as [incs|] eqn:Hmap.
+  - left. exists incs.
+    assert (Hfields : map (ie_path D) incs = map snd files /\ map (ie_digest D) incs = map fst files /\
+                      (forall f, In f files -> fs_get fs (snd f) <> None)).
+    { apply map_opt_Forall2 in Hmap. induction Hmap as [|f ie fl il Hmk HF IH]; [repeat split; intros f []|].
+      destruct (mk_include_fields _ _ _ _ Hmk) as [Hp [Hd Hs]]. destruct IH as [IHp [IHd IHs]].
+      simpl. rewrite Hp, Hd, IHp, IHd. repeat split. intros f0 [<- | Hin]; [exact Hs | apply IHs; exact Hin]. }
+    split; [|exact Hfields].
+    destruct (rs_find D k (if N.ltb max_pp_cache_file_info_entries (len incs + number_of_entries D e1) then [] else results D e1));
+      simpl; apply rs_find_put.
+  - right. split; [|exact He1].
+    destruct (map_opt_none _ _ Hmap) as [f [Hin Hnone]]. exists f. split; [exact Hin|].
+    unfold mk_include in Hnone. destruct (fs_get fs (snd f)); [discriminate | reflexivity].
+Qed.
+
+(* ---- the window between the include recorder and add_result: files may have been REMOVED in between ---- *)
+Definition sub_fs (fs_add fs : fsnap) : Prop := forall p nd, fs_get fs_add p = Some nd -> fs_get fs p = Some nd.
+
+Lemma mk_include_recorded_w cfg fs fs_add start date d p ie :
+  sub_fs fs_add fs ->
+  good_header cfg fs start date (p, d) ->
+  mk_include D fs_add start (d, p) = Some ie ->
+  recorded_ie cfg fs date ie /\ ie_path D ie = p.
+Proof.
+  intros Hsub [nd [[Hg Hk] [_ [Hnt Hd]]]] Hmk. unfold mk_include in Hmk. simpl in *.
+  destruct (fs_get fs_add p) as [nd'|] eqn:Hg'; [|discriminate].
+  pose proof (Hsub p nd' Hg') as Hg2. rewrite Hg in Hg2. inversion Hg2; subst nd'.
+  inversion Hmk; subst; clear Hmk. simpl. split; [|reflexivity].
+  exists nd. simpl. split; [split; assumption|]. split; [reflexivity|]. split.
+  - destruct (N.ltb (N.max (n_mtime nd) (n_ctime nd)) start); [left | right]; split; reflexivity.
+  - split; assumption.
+Qed.
+
+Lemma apply_rec_w_inv cfg ops e op fs_add :
+  sub_fs fs_add (ro_fs op) ->
+  entry_inv cfg ops e -> entry_inv cfg (ops ++ [op]) (fst (apply_rec_w D H HT cfg e op fs_add)).
+Proof.
+  intros Hsub Hinv.
+  assert (Hweak : entry_inv cfg (ops ++ [op]) e).
+  { intros k incs Hin. destruct (Hinv k incs Hin) as [o [Ho Hrest]]. exists o. split; [apply in_or_app; left; exact Ho | exact Hrest]. }
+  unfold apply_rec_w, record_w.
+  destruct (remember_all D H HT cfg (ro_fs op) (ro_start op) (ro_date op) (ro_input op) [] (ro_incs op))
+    as [included|] eqn:Hrem; [|exact Hweak].
+  destruct included as [|x0 included0] eqn:Hincl; [exact Hweak|]. rewrite <- Hincl in *. clear Hincl.
+  simpl fst.
+  destruct (remember_all_spec _ _ _ _ _ _ _ _ Hrem) as [Hgood [_ Hcompl]].
+  specialize (Hgood (Forall_nil _)).
+  set (base := if ro_fresh op then entry_new D else e).
+  assert (Hbase : entry_inv cfg (ops ++ [op]) base).
+  { unfold base. destruct (ro_fresh op); [intros k incs []|exact Hweak]. }
+  unfold add_result.
+  set (e1 := if N.ltb max_pp_cache_entries (len (results D base))
+             then {| number_of_entries := 0; results := [] |} else base).
+  assert (He1 : entry_inv cfg (ops ++ [op]) e1).
+  { unfold e1. destruct (N.ltb max_pp_cache_entries (len (results D base))); [intros k incs []|exact Hbase]. }
+  destruct (map_opt (mk_include D fs_add (ro_start op)) (sort_files D included)) as [incs|] eqn:Hmap; [|exact He1].
+  set (rs := if N.ltb max_pp_cache_file_info_entries (len incs + number_of_entries D e1) then [] else results D e1).
+  assert (Hrs : forall k v, In (k, v) rs -> In (k, v) (results D e1)).
+  { unfold rs. destruct (N.ltb max_pp_cache_file_info_entries (len incs + number_of_entries D e1)); [intros k v []|tauto]. }
+  assert (Hnew : res_ok cfg op incs).
+  { apply map_opt_Forall2 in Hmap. split.
+    - apply Forall_forall. intros ie Hie.
+      destruct (Forall2_in_r _ _ _ _ Hmap Hie) as [[d p] [Hdp Hmk]].
+      apply sort_files_in in Hdp. rewrite Forall_forall in Hgood.
+      apply (mk_include_recorded_w cfg _ _ _ _ d p ie Hsub (Hgood _ Hdp) Hmk).
+    - intros p [sys [nd [Hin [Hf Hfile]]]].
+      pose proof (Hcompl p sys nd Hin Hf Hfile) as Hmem.
+      destruct (inc_mem_In _ _ Hmem) as [d Hd].
+      assert (Hd' : In (d, p) (sort_files D included)) by (apply sort_files_in; exact Hd).
+      destruct (Forall2_in_l _ _ _ _ Hmap Hd') as [ie [Hie Hmk]].
+      exists ie. split; [exact Hie|]. rewrite Forall_forall in Hgood.
+      apply (mk_include_recorded_w cfg _ _ _ _ d p ie Hsub (Hgood _ Hd) Hmk). }
+  assert (Hfinal : forall k' v', In (k', v') (rs_put D (ro_key op) incs rs) ->
+                                 exists o, In o (ops ++ [op]) /\ ro_key o = k' /\ res_ok cfg o v').
+  { intros k' v' Hin. apply rs_put_in in Hin. destruct Hin as [Heq | Hold].
+    - inversion Heq; subst. exists op. split; [apply in_or_app; right; left; reflexivity|]. split; [reflexivity | exact Hnew].
+    - apply (He1 k' v'). apply Hrs. exact Hold. }
+  destruct (rs_find D (ro_key op) rs); intros k' v' Hin; apply Hfinal; exact Hin.
+Qed.
+
+Definition run_recs_w (cfg : config) (ops : list (rec_op * fsnap)) : entry D :=
+  fold_left (fun e o => fst (apply_rec_w D H HT cfg e (fst o) (snd o))) ops (entry_new D).
+
+Lemma run_recs_w_inv cfg (ops : list (rec_op * fsnap)) :
+  Forall (fun o => sub_fs (snd o) (ro_fs (fst o))) ops ->
+  entry_inv cfg (map fst ops) (run_recs_w cfg ops).
+Proof.
+  unfold run_recs_w. intros Hall.
+  assert (Hgen : forall ops1 ops0 e, Forall (fun o => sub_fs (snd o) (ro_fs (fst o))) ops1 ->
+            entry_inv cfg ops0 e ->
+            entry_inv cfg (ops0 ++ map fst ops1)
+                      (fold_left (fun e o => fst (apply_rec_w D H HT cfg e (fst o) (snd o))) ops1 e)).
+  { induction ops1 as [|o ops1 IH]; intros ops0 e Hf Hinv; simpl.
+    - rewrite app_nil_r. exact Hinv.
+    - inversion Hf as [|o' l' Ho Hrest]; subst.
+      replace (ops0 ++ fst o :: map fst ops1) with ((ops0 ++ [fst o]) ++ map fst ops1) by (rewrite <- app_assoc; reflexivity).
+      apply IH; [exact Hrest|]. apply apply_rec_w_inv; assumption. }
+  apply (Hgen ops [] (entry_new D) Hall). intros k incs [].
+Qed.
+
+Theorem lookup_sound_w cfg (ops : list (rec_op * fsnap)) fs1 date1 k :
+  Forall (fun o => sub_fs (snd o) (ro_fs (fst o))) ops ->
+  (file_stat_matches cfg = true -> use_ctime_for_stat cfg = true ->
+   forall op, In op (map fst ops) -> stat_trust (ro_fs op) fs1) ->
+  lookup_result_digest D Deqb H HT cfg fs1 date1 (run_recs_w cfg ops) = Some k ->
+  exists op, In op (map fst ops) /\ ro_key op = k /\
+    forall p, must_record cfg op p -> unchanged cfg (ro_fs op) (ro_date op) fs1 date1 p.
+Proof.
+  intros Hall Htrust Hl. unfold lookup_result_digest in Hl.
+  apply first_match_some in Hl. destruct Hl as [incs [Hin Hrm]].
+  apply in_rev in Hin.
+  destruct (run_recs_w_inv cfg ops Hall k incs Hin) as [op [Hop [Hk [Hrec Hcompl]]]].
   exists op. split; [exact Hop|]. split; [exact Hk|].
   intros p Hmust. destruct (Hcompl p Hmust) as [ie [Hie Hp]]. subst p.
   unfold result_matches in Hrm. rewrite forallb_forall in Hrm.
